@@ -17,8 +17,8 @@ func VerifC04RoundTrip() {
 	v.Assume(0 <= sec && sec < 1<<34)
 	v.Assume(0 <= rsec && rsec < 1<<34)
 	d := sec - rsec
-	// |t - t0| < 2^31 s (strictly inside the window, to the nanosecond)
-	v.Assume(-(1<<31) < d && d < 1<<31)
+	// the half-open window the conversion resolves: t0.sec - 2^31 <= t.sec < t0.sec + 2^31
+	v.Assume(-(1<<31) <= d && d < 1<<31)
 	t := time.Unix(sec, ns).UTC()
 	t0 := time.Unix(rsec, rns).UTC()
 	u := TimeFromTime64(Time64FromTime(t), t0)
@@ -39,7 +39,7 @@ func VerifC04Order() {
 	v.Assume(0 <= sec && sec < 1<<34 && 0 <= sec2 && sec2 < 1<<34)
 	v.Assume(0 <= rsec && rsec < 1<<34)
 	d, d2 := sec-rsec, sec2-rsec
-	v.Assume(-(1<<31) < d && d < 1<<31 && -(1<<31) < d2 && d2 < 1<<31)
+	v.Assume(-(1<<31) <= d && d < 1<<31 && -(1<<31) <= d2 && d2 < 1<<31)
 	v.Assume(sec < sec2 || sec == sec2 && ns <= ns2)
 	t := time.Unix(sec, ns).UTC()
 	t2 := time.Unix(sec2, ns2).UTC()
